@@ -808,6 +808,7 @@ type c09Space struct {
 	base       c09Case
 	dims       []c09Dim
 	endToEnd   bool
+	repeat     int // extra executions of every case (other Go map iteration orders); results must be identical
 }
 
 func c09Strs(v []string) string { return "{" + strings.Join(v, ",") + "}" }
@@ -951,6 +952,17 @@ func c09Run(env *mc.Env, sp *c09Space) {
 			*o = c09Out{}
 			eval(&c, o)
 			l.Evals++
+			for r := 0; r < sp.repeat; r++ {
+				var o2 c09Out
+				eval(&c, &o2)
+				l.Evals++
+				if o2 != *o { // diagnostic only: determinism is not part of the property, each run is judged below/above
+					l.Count("repeat_run_differs(diag)", 1)
+					res.Diag(fmt.Sprintf("two executions of %+v differ: %+v vs %+v", c.clone(), *o, o2))
+				} else {
+					l.Count("repeat_runs_identical", 1)
+				}
+			}
 			ref := c09Reference(&c)
 			c09Judge(vs, n, ds, &c, &ref, o, sp.endToEnd)
 		}
@@ -1131,11 +1143,14 @@ func c09Setup() func() {
 	return func() { Clock, client = oldClock, oldClient; debug.SetGCPercent(oldGC) }
 }
 
-func c09Replay(env *mc.Env) bool {
+func c09Replay(env *mc.Env, unit string) bool {
 	var raw json.RawMessage
 	part, ok := env.ReplayData(&raw)
 	if !ok {
 		return false
+	}
+	if !strings.HasPrefix(part, unit+"-") { // a replay file of another unit of this property
+		return true
 	}
 	var cases []c09Case
 	var pair struct{ Lower, Raised *c09Case }
@@ -1175,7 +1190,7 @@ func c09Replay(env *mc.Env) bool {
 func TestVerifC09Node(t *testing.T) {
 	env := mc.LoadEnv()
 	defer c09Setup()()
-	if c09Replay(env) {
+	if c09Replay(env, "node") {
 		return
 	}
 	res3, sys3, host2 := []int64{0, 1, 3}, []int64{0, 2, 5}, []int64{0, 1}
@@ -1226,7 +1241,7 @@ func TestVerifC09Node(t *testing.T) {
 	}
 	// (3) three pods (a small product in the quick tier)
 	{
-		sp := &c09Space{unit: "node", part: "node-3pods", base: c09Base()}
+		sp := &c09Space{unit: "node", part: "node-3pods", base: c09Base(), repeat: 1}
 		c09CapDim(sp, []int64{0})
 		if env.Thorough() {
 			c09EnvDims(sp, []int64{0, 3}, []int64{0}, []int64{0, 5}, []int64{0}, []string{""}, []int64{0})
@@ -1247,12 +1262,12 @@ func TestVerifC09Node(t *testing.T) {
 func TestVerifC09Calc(t *testing.T) {
 	env := mc.LoadEnv()
 	defer c09Setup()()
-	if c09Replay(env) {
+	if c09Replay(env, "calc") {
 		return
 	}
 	// (4) metric age x degrade time, with and without zones
 	{
-		sp := &c09Space{unit: "calc", part: "calc-degrade", base: c09Base(), endToEnd: true}
+		sp := &c09Space{unit: "calc", part: "calc-degrade", base: c09Base(), endToEnd: true, repeat: 2}
 		c09CapDim(sp, []int64{0})
 		sp.addI64("zones", []int64{0, 2}, false, 0, func(c *c09Case, v int64) { c.Zones = int(v) })
 		sp.addI64("degrade-minutes", []int64{1, 15}, false, 0, func(c *c09Case, v int64) { c.Degrade = v })
